@@ -61,6 +61,17 @@ def run_patch(pid, patch, keep=False):
                 res["detail"] = [l for l in r.stdout.splitlines() if "ANALYSIS-BROKEN" in l][:3]
             else:
                 res["status"] = "MISSED"
+                # a stored change that was delivered for this property but, on inspection, does not break it (meta.json says which property it does break and
+                # why) is listed, not counted as a miss of this checker
+                mp = os.path.join(os.path.dirname(os.path.abspath(patch)), "meta.json")
+                if os.path.exists(mp):
+                    try:
+                        km = json.load(open(mp)).get("not_a_violation_of_the_named_property")
+                    except Exception:
+                        km = None
+                    if km:
+                        res["status"] = "reclassified"
+                        res["detail"] = km
         return res
     finally:
         if not keep:
